@@ -41,6 +41,7 @@ type Op struct {
 	Trim    bool        `json:"trim,omitempty"`
 	Fault   *Fault      `json:"fault,omitempty"`
 	Line    string      `json:"line,omitempty"`
+	More    []string    `json:"more,omitempty"`   // further lines of the same Write call
 	Empty   bool        `json:"empty,omitempty"`  // Write(nil): nothing to write
 	Chunks  bool        `json:"chunks,omitempty"` // the line reaches the container in two Write calls: its text, then its line feed
 }
